@@ -168,6 +168,64 @@ theorem C09_contract_edit (root : T) (recv : Path) (f : List T → Option Edit) 
   simp only [hg, he]
   exact C09_contract_finish _ hwf _
 
+/-- BULK OPERATIONS (`clear`, `sort`, `reverse`, `insert`, `del` / `pop` / `remove`, slice assignment,
+`del` slice, `*=` on a List anywhere in a tree — typed or not, below objects that override
+`_on_change` at any number of levels): the events are exactly one per subscribing node on the path
+from the root to the list (the list included), each carrying *all* the entries of the operation
+relative to the receiver, nobody else hears anything (`bulkSpec`, a closed form of the contract);
+and the delivered sequence is `notifications r' ups`, so `C09_order` (children before parents) and
+`C09_exactly_once` apply to it; old / new of the entries: `C09_truthful_edit_old/new`. -/
+theorem C09_bulk_edit (root : T) (recv : Path) (f : List T → Option Edit) (m : Meta)
+    (items : List (Key × T)) (e : Edit)
+    (hg : getAt root recv = some (.node m .list items)) (he : f (items.map (·.2)) = some e)
+    (hne : e.ents ≠ [])
+    (hwf : WF (resetChain (mapAt (setVals e.vals) root recv) recv)) :
+    let r' := resetChain (mapAt (setVals e.vals) root recv) recv
+    let ents := e.ents.map fun x => (Key.i x.1, x.2.1, x.2.2)
+    (applyEdit root recv true f).events = notifications r' (ownedUps recv ents) ∧
+      (applyEdit root recv true f).events.Perm (bulkSpec r' recv ents) := by
+  intro r' ents
+  have hups : (e.ents.map fun x => (({ path := recv ++ [Key.i x.1], old := x.2.1, new := x.2.2 } : Update), recv))
+      = ownedUps recv ents := by
+    simp [ownedUps, ents, List.map_map, Function.comp_def]
+  have hents : ents ≠ [] := by
+    intro h; apply hne; simpa [ents] using h
+  have hev : (applyEdit root recv true f).events = notifications r' (ownedUps recv ents) := by
+    unfold applyEdit
+    simp only [hg, he, hups, finish]
+    have : (ownedUps recv ents).isEmpty = false := by
+      cases hx : ents with
+      | nil => exact absurd hx hents
+      | cons _ _ => simp [ownedUps]
+    simp [this, r']
+  refine ⟨hev, ?_⟩
+  rw [hev, ← specNotifs_owned r' recv ents hents]
+  exact C09_contract r' hwf _
+
+/-- The same for `Dict.clear()` / `Dict.popitem()`. -/
+theorem C09_bulk_keyedit (root : T) (recv : Path)
+    (f : List (Key × T) → Option (List (Key × T) × List (Key × Option T × Option T))) (m : Meta)
+    (items items' : List (Key × T)) (ents : List (Key × Option T × Option T))
+    (hg : getAt root recv = some (.node m .dict items)) (he : f items = some (items', ents)) (hne : ents ≠ [])
+    (r' : T) (hr : r' = resetChain (mapAt (setItems items') root recv) recv) (hwf : WF r') :
+    (applyKeyEdit root recv true f).events = notifications r' (ownedUps recv ents) ∧
+      (applyKeyEdit root recv true f).events.Perm (bulkSpec r' recv ents) := by
+  have hev : (applyKeyEdit root recv true f).events = notifications r' (ownedUps recv ents) := by
+    rw [hr]
+    unfold applyKeyEdit
+    simp only [hg, he, finish]
+    have : (ownedUps recv ents).isEmpty = false := by
+      cases hx : ents with
+      | nil => exact absurd hx hne
+      | cons _ _ => simp [ownedUps]
+    have h2 : (ents.map fun x => (({ path := recv ++ [x.1], old := x.2.1, new := x.2.2 } : Update), recv))
+        = ownedUps recv ents := rfl
+    rw [h2]
+    simp [this]
+  refine ⟨hev, ?_⟩
+  rw [hev, ← specNotifs_owned r' recv ents hne]
+  exact C09_contract r' hwf _
+
 /-! ## Truthfulness of the recorded old / new values -/
 
 /-- One write at any depth (accessor write, `del`, `append`, each pair of a `rebind` / `extend` /
@@ -338,9 +396,7 @@ theorem C09_contract_keyedit (root : T) (recv : Path)
     (f : List (Key × T) → Option (List (Key × T) × List (Key × Option T × Option T))) (m : Meta)
     (items items' : List (Key × T)) (ents : List (Key × Option T × Option T))
     (hg : getAt root recv = some (.node m .dict items)) (he : f items = some (items', ents))
-    (r' : T) (hr : r' = resetChain (mapAt (fun t => match t with
-          | .leaf a => .leaf a
-          | .node m k _ => .node m k items') root recv) recv) (hwf : WF r') :
+    (r' : T) (hr : r' = resetChain (mapAt (setItems items') root recv) recv) (hwf : WF r') :
     (applyKeyEdit root recv true f).events.Perm
       (specNotifs r' (ents.map fun x => ({ path := recv ++ [x.1], old := x.2.1, new := x.2.2 }, recv))) := by
   subst hr
